@@ -593,6 +593,10 @@ def _verdict_fn(ctx, b):
                 why = 'verdict comes from %s' % c.qname
             elif o.kind == 'const':
                 consts.append(o.key)
+            elif o.kind == 'op' and b.blocks[o.key[0]]['stmts'][o.key[1]]['rv']['k'] == 'un' and b.blocks[o.key[0]]['stmts'][o.key[1]]['rv']['uop'] == 'Not' and (lambda io: bool(io) and all(
+                    x.kind == 'call' and b.calls[x.key].qname == 'std::option::Option::is_some' and ctx.base_call_bbs(b.orig_operand(b.calls[x.key].args[0])) == {chk.bb} for x in io))(
+                    b.orig_operand(F.operand(b.blocks[o.key[0]]['stmts'][o.key[1]]['rv']['a']))):
+                continue  # `!answer.is_some()` is `answer.is_none()`
             else:
                 good = False
                 why = 'verdict origin %s' % b.describe_origin(o)
@@ -698,7 +702,8 @@ def resolve_bottom_up(ctx):
     one('q_pop', [b for b in removers if b.argc == 2])
     one('q_pop_least', [b for b in removers if b.argc == 3])
     bu = [b for b in F.bodies.values() if b.crate == 'pie' and not b.is_test_code() and b.impl_self and 'BottomUpContext' in b.impl_self and b.kind == 'AssocFn']
-    one('try_sched', [b for b in bu if b.find_calls(lambda c: c.qname == VERDICT_BU_RES)])
+    # the scheduling test: the one function of pie (a method of the context or of a helper struct, or a free fn) that asks a resource dependency for its bottom-up verdict
+    one('try_sched', [b for b in F.bodies.values() if b.crate == 'pie' and not b.is_test_code() and b.kind in ('Fn', 'AssocFn') and not b.impl_trait and b.find_calls(lambda c: c.qname == VERDICT_BU_RES)])
     one('exec_and_sched', [b for b in bu if b.find_calls(lambda c: c.qname == VERDICT_BU_TASK)])
     r['sched_by_res'] = [b for b in bu if r.get('try_sched') and b.find_calls(lambda c: is_callee(ctx, c, r['try_sched']))
                          and not (r.get('exec_and_sched') and b.id == r['exec_and_sched'].id)]
